@@ -160,6 +160,43 @@ CLAIMED = {
             "The standard is transcribed from memory; ASSUMED clauses follow the code ('<' ending unquoted values, the XML-declaration "
             "sniff not modelled, late-meta elif). Which metas reach the in-head rules is taken from the recording; tree equality is "
             "computed by the harness against stdlib-decoded text. Inputs stay below the 10240-character chunk; chardet absent.", "5/C06"),
+    "C09": ("model_checking",
+            "TLA+ specs UrlScheme (BrowserScheme / BrowserDataType per the WHATWG URL, Fetch and MIME algorithms vs the filter's URL "
+            "handling), CssGauntlet (the CSS regexes as position-set automata vs CssSafe) and Sanitizer (safety predicate with the "
+            "allow-lists as data + element-level filter model); TLC theorems (scheme invariance, never-misses, data type, safe, "
+            "inert); replay into the real Filter / sanitize_css; real filter output under default and 20 random restricted "
+            "allow-lists judged token by token (Trace_Sanitizer)",
+            "TLC proves on the intended model that the browser-resolved scheme is invariant under TAB/LF/CR, C0-or-space and case, "
+            "that whatever the filter keeps has an allowed scheme and data: type, that output tokens carry only allow-listed "
+            "elements/attributes and CSS without url(), and that disallowed tags become exactly one text token; the code-faithful "
+            "model (two listed deviations) is replayed exactly and real filter output on parsed inputs is judged by the same predicate.",
+            "URL/Fetch/MIME algorithms transcribed from memory; data: percent-encoding not modelled; urlsplit's IPv6/NFKC ValueError "
+            "paths accepted as 'drop'; a KeyError raised by the filter is modelled but not counted as unsafe output. Exhaustive depth "
+            "is <=2-3 fragments on a[href] and <=4-5 on svg a[xlink:href]; other URI slots get seeded obfuscated values.", "5/C09"),
+    "C12": ("model_checking",
+            "TLA+ specs Lifecycle (parser object across calls: persistent vs per-parse fields, Begin/Process/abort actions, a shadow "
+            "parser re-initialised at every Begin), Schedule (two objects interleaved at read granularity, shared caches), "
+            "MC_HandlerCache, SerLifecycle; TLC theorems (lock-step with the shadow, history independence, sequential results); "
+            "histories and schedules executed on real objects incl. threads with a baton in read(), fresh-subprocess subset "
+            "(Trace_Lifecycle, Trace_SerLifecycle)",
+            "TLC proves on the intended machine that a reused parser object is indistinguishable from a brand-new one at every token "
+            "step (15 documents x strict x source failure at any read, histories of 2-3 calls), that the handler cache is transparent "
+            "and bounded, that interleaved objects return their sequential results and that serializer calls are history "
+            "independent; every explored history/schedule is executed on real objects (etree and dom) and must equal both the "
+            "code-faithful machine and a fresh object; recorded histories on wide inputs are judged by TLC.",
+            "The machine is exact only for its vocabulary; wide inputs are judged via reused / fresh / seeded-fresh comparisons. "
+            "Interleavings finer than read() only via unsynchronised threads, not enumerated. A fresh interpreter means a subprocess.",
+            "5/C12"),
+    "C16": ("model_checking",
+            "Lifecycle strict theorems (raised iff errors, ParseError only, first error) checked by TLC on every MC_Lifecycle call; "
+            "Trace_Strict judges recorded strict/non-strict parses (iff, class, first error, template exists and formats, position "
+            "in range, conforming documents record no errors)",
+            "TLC proves the strict theorems on every call of the lifecycle model and judges each recorded (input, container) pair "
+            "(15k quick / 374k thorough; prefix closure puts EOF in every tokenizer state; all reachable error codes reached in "
+            "thorough) plus generated conforming documents; fresh and long-lived strict / non-strict objects are both used; three "
+            "code deviations are modelled as named branches.",
+            "E is html5lib's own message table (consistency check of the code). Conformance of generated documents and of the ampersand "
+            "/ caption cases is my transcription of the standard. Inputs whose non-strict parse crashes are left to C03.", "5/C16"),
 }
 
 NOT_YET = "check not built yet in this round (planned, see DESIGN.md section 5)"
